@@ -192,6 +192,50 @@ func runC19(c *Ctx) {
 		}
 		c.Ob("SAME-ADDRESS", "connectclient.Make/provider-argument", mk.Decl.Pos(), authCall != nil && okArg && okOrder, true,
 			"authInterceptorProvider receives Make's address parameter (%v) before any address mapping (%v)", okArg, okOrder)
+		// per-call construction (added after seeded change C19-b): the interceptor is built for *this* call's address —
+		// the provider call is not deferred into a closure (sync.Once.Do), Make stores nothing into the shared Config,
+		// and what is appended to the interceptor list is the provider's result of this very call
+		cfgObj := info.Defs[mk.Decl.Type.Params.List[0].Names[0]]
+		inLit := false
+		if authCall != nil {
+			for q := p.Parent(authCall); q != nil && q != ast.Node(mk.Decl); q = p.Parent(q) {
+				if _, ok := q.(*ast.FuncLit); ok {
+					inLit = true
+				}
+			}
+		}
+		var cfgStores []string
+		appendedOK := false
+		ast.Inspect(mk.Decl.Body, func(n ast.Node) bool {
+			switch x := n.(type) {
+			case *ast.AssignStmt:
+				for _, l := range x.Lhs {
+					if sel, ok := ast.Unparen(l).(*ast.SelectorExpr); ok && identObj(info, sel.X) == cfgObj {
+						cfgStores = append(cfgStores, sel.Sel.Name)
+					}
+				}
+			case *ast.CallExpr:
+				if id, ok := x.Fun.(*ast.Ident); ok && id.Name == "append" && len(x.Args) == 2 && authCall != nil {
+					// append(interceptors, v) with v := authInterceptorProvider(address), or the call itself
+					arg := ast.Unparen(x.Args[1])
+					if arg == ast.Expr(authCall) {
+						appendedOK = true
+					} else if vo := identObj(info, arg); vo != nil {
+						if _, isField := arg.(*ast.SelectorExpr); !isField {
+							ast.Inspect(mk.Decl.Body, func(m ast.Node) bool {
+								if as, ok := m.(*ast.AssignStmt); ok && len(as.Lhs) == 1 && len(as.Rhs) == 1 && identObj(info, as.Lhs[0]) == vo && ast.Unparen(as.Rhs[0]) == ast.Expr(authCall) {
+									appendedOK = true
+								}
+								return true
+							})
+						}
+					}
+				}
+			}
+			return true
+		})
+		c.Ob("SAME-ADDRESS", "connectclient.Make/per-call-interceptor", mk.Decl.Pos(), authCall != nil && !inLit && len(cfgStores) == 0 && appendedOK, true,
+			"the auth interceptor is built on every Make call for that call's address: provider call outside any closure=%v, stores into the shared Config=%v, its result is what is appended to the interceptors=%v", !inLit, cfgStores, appendedOK)
 	} else {
 		c.Fail("SAME-ADDRESS", "connectclient.Make", token.NoPos, "not found")
 	}
@@ -293,6 +337,79 @@ func runC19(c *Ctx) {
 			}
 			return true
 		})
+		// exactly one '@' per entry (added after seeded change C19-a): with two, either part would swallow the other
+		// entry (`t1@h1t2@h2` after a forgotten comma) and a token would be sent to a host it was not configured for.
+		// Accepted idioms: Split(x,"@") with a `len(parts) != 2` rejection; Count(x,"@") != 1 rejection; Cut/Index with a
+		// Contains(part,"@") rejection of both parts.
+		oneAt, how := false, "no idiom recognised"
+		var splitVar types.Object
+		ast.Inspect(fr.Decl.Body, func(n ast.Node) bool {
+			if as, ok := n.(*ast.AssignStmt); ok && len(as.Lhs) == 1 && len(as.Rhs) == 1 {
+				if call, ok := ast.Unparen(as.Rhs[0]).(*ast.CallExpr); ok {
+					if fn := Callee(info, call); fn != nil && fn.Pkg() != nil && fn.Pkg().Path() == "strings" && fn.Name() == "Split" && len(call.Args) == 2 {
+						if s, ok := stringLit(info, call.Args[1]); ok && s == "@" {
+							splitVar = identObj(info, as.Lhs[0])
+						}
+					}
+				}
+			}
+			return true
+		})
+		ast.Inspect(fr.Decl.Body, func(n ast.Node) bool {
+			ifs, ok := n.(*ast.IfStmt)
+			if !ok || len(ifs.Body.List) == 0 {
+				return true
+			}
+			r, isRet := ifs.Body.List[len(ifs.Body.List)-1].(*ast.ReturnStmt)
+			if !isRet || classifyReturn(info, r) != retNonNil {
+				return true
+			}
+			be, ok := ast.Unparen(ifs.Cond).(*ast.BinaryExpr)
+			if !ok || be.Op != token.NEQ {
+				return true
+			}
+			call, ok := ast.Unparen(be.X).(*ast.CallExpr)
+			if !ok {
+				return true
+			}
+			tv := info.Types[be.Y]
+			if id, ok := call.Fun.(*ast.Ident); ok && id.Name == "len" && len(call.Args) == 1 && splitVar != nil && identObj(info, call.Args[0]) == splitVar && tv.Value != nil && tv.Value.ExactString() == "2" {
+				oneAt, how = true, "strings.Split(entry, \"@\") and len(parts) != 2 is an error"
+			}
+			if fn := Callee(info, call); fn != nil && fn.Pkg() != nil && fn.Pkg().Path() == "strings" && fn.Name() == "Count" && len(call.Args) == 2 && tv.Value != nil && tv.Value.ExactString() == "1" {
+				if s, ok := stringLit(info, call.Args[1]); ok && s == "@" {
+					oneAt, how = true, "strings.Count(entry, \"@\") != 1 is an error"
+				}
+			}
+			return true
+		})
+		if !oneAt {
+			// Cut / Index idiom: every string stored as key or value is rejected when it contains "@"
+			rejects := 0
+			ast.Inspect(fr.Decl.Body, func(n ast.Node) bool {
+				ifs, ok := n.(*ast.IfStmt)
+				if !ok || len(ifs.Body.List) == 0 {
+					return true
+				}
+				if r, isRet := ifs.Body.List[len(ifs.Body.List)-1].(*ast.ReturnStmt); !isRet || classifyReturn(info, r) != retNonNil {
+					return true
+				}
+				for _, t := range splitOr(ifs.Cond) {
+					if call, ok := ast.Unparen(t).(*ast.CallExpr); ok && len(call.Args) == 2 {
+						if fn := Callee(info, call); fn != nil && fn.Pkg() != nil && fn.Pkg().Path() == "strings" && (fn.Name() == "Contains" || fn.Name() == "ContainsRune") {
+							if s, ok := stringLit(info, call.Args[1]); ok && s == "@" {
+								rejects++
+							}
+						}
+					}
+				}
+				return true
+			})
+			if rejects >= 2 {
+				oneAt, how = true, "both parts are rejected when they contain \"@\""
+			}
+		}
+		c.Ob("PARSE-ALL-OR-NOTHING", "newMultipleTokenProvider/exactly-one-at", fr.Decl.Pos(), oneAt, true, "an entry with more than one '@' is rejected: %s", how)
 		c.Ob("PARSE-ALL-OR-NOTHING", "newMultipleTokenProvider/duplicate-address-rejected", fr.Decl.Pos(), dup, true, "a repeated address is an error (first source wins deterministically instead of last-writer-wins): %v", dup)
 	}
 
@@ -403,4 +520,13 @@ func c19ExactMatch(c *Ctx, pk *packages.Package, nt *types.Named) {
 		return
 	}
 	c.Ob("EXACT-MATCH", inst, fr.Decl.Pos(), bad == "", true, "address parameter uses: %v %s", uses, bad)
+}
+
+
+func splitOr(e ast.Expr) []ast.Expr {
+	e = ast.Unparen(e)
+	if be, ok := e.(*ast.BinaryExpr); ok && be.Op == token.LOR {
+		return append(splitOr(be.X), splitOr(be.Y)...)
+	}
+	return []ast.Expr{e}
 }
